@@ -118,7 +118,7 @@ fn event(tree: &Sx, r: &mut StdRng, nchains: usize, consts: &Consts) -> Value {
             "births": Value::Array(ch.births.iter().map(|(h, s)| json!({"h": bignat_u64(*h as u64), "s": bignat_u64(*s)})).collect()),
             "ok": ok}));
     }
-    json!({"k": "tl", "tree": tree.to_json(), "parse_ok": parse_ok, "panic": panic, "chains": cj})
+    json!({"k": "tl", "tree": tree.to_jsonf(), "parse_ok": parse_ok, "panic": panic, "chains": cj})
 }
 
 fn signed_atom(r: &mut StdRng) -> Sx {
